@@ -495,6 +495,43 @@ pub fn run() -> i32 {
         }
         ctx.absorb("randomness-drawn", st);
     }
+    // environment answer "short read": while this section runs, libc's getrandom() (interposed
+    // below) hands out at most 64 bytes per call, as the kernel may for large or interrupted
+    // requests. A caller that takes the first return value for "done" leaves a constant tail.
+    {
+        let mut st = Stats::new();
+        GETRANDOM_CAP.store(64, std::sync::atomic::Ordering::SeqCst);
+        for n in [65usize, 128, 256, 257, 1000, 4097] {
+            let r = guarded(AssertUnwindSafe(|| {
+                let mut vals: Vec<Vec<u8>> = vec![];
+                for _ in 0..8 {
+                    vals.push(dryoc::rng::randombytes_buf(n));
+                    let mut b = vec![0u8; n];
+                    dryoc::rng::copy_randombytes(&mut b);
+                    vals.push(b);
+                }
+                vals
+            }));
+            let bad = match &r {
+                Err(p) => Some(format!("panicked: {}", p)),
+                Ok(vals) => {
+                    let tail_zero = vals.iter().any(|v| v[v.len() - 16..].iter().all(|b| *b == 0));
+                    let tail_const = (n - 16..n).any(|pos| vals.iter().all(|v| v[pos] == vals[0][pos]));
+                    if tail_zero || tail_const {
+                        Some("the tail of the value was not filled (all-zero / constant across calls)".to_string())
+                    } else {
+                        None
+                    }
+                }
+            };
+            st.eval(&("short-read", n), true, if bad.is_none() { "fresh-under-short-reads" } else { "unfilled-under-short-reads" });
+            if let Some(b) = bad {
+                st.fail(Fail { check: "C11.rng".into(), signature: "C11/short-read/randombytes".into(), what: format!("randombytes of {} bytes while getrandom() returns at most 64 bytes per call: {}", n, b), case: json!({"order": ["rng::copy_randombytes"], "seam": Value::Null, "note": "short-read environment; re-run bin/check C11"}) });
+            }
+        }
+        GETRANDOM_CAP.store(0, std::sync::atomic::Ordering::SeqCst);
+        ctx.absorb("short-kernel-reads", st);
+    }
     // several threads: the k-th value drawn on one thread must not reappear on another (a
     // generator whose state is partly global and partly per-thread repeats across threads while
     // every single thread looks healthy). 4 fresh threads x every entry point x 24 calls, OS RNG.
@@ -590,4 +627,17 @@ pub fn run() -> i32 {
     ctx.require_outcome("fresh(owned-rng)");
     ctx.require_outcome("fresh(os-rng)");
     ctx.finish()
+}
+
+
+/// libc's getrandom(), interposed for the whole harness binary: passes straight through to the
+/// system call unless a cap is armed, in which case every call is a short read of at most
+/// that many bytes.
+pub static GETRANDOM_CAP: std::sync::atomic::AtomicUsize = std::sync::atomic::AtomicUsize::new(0);
+
+#[no_mangle]
+pub unsafe extern "C" fn getrandom(buf: *mut libc::c_void, len: libc::size_t, flags: libc::c_uint) -> libc::ssize_t {
+    let cap = GETRANDOM_CAP.load(std::sync::atomic::Ordering::SeqCst);
+    let n = if cap > 0 { len.min(cap) } else { len };
+    libc::syscall(libc::SYS_getrandom, buf, n, flags) as libc::ssize_t
 }
